@@ -342,9 +342,64 @@ def _close(a, b, tol):
     return a.shape == b.shape and bool(np.all(np.isfinite(a))) and float(np.max(np.abs(a - b), initial=0.0)) <= tol
 
 
+def probe_buffer_reuse(ctx, G):
+    """hardening class "buffer reuse across calls" (harness/mani_reuse.py): r1 = f(A); r2 = f(B) with B != A of the same size => r1 unchanged bit for bit, no
+    shared memory, r1 still correct for A; then f(A) -> overwritten in place -> f(B), f(A) unchanged.  Deterministic, quick tier.  Covered: gellmann_matrix,
+    all_gellmann_matrix (different options of the same d; it hands out ONE lru_cached object per argument tuple - recorded observation - so the overwrite step is
+    skipped for it), matrix_to_gellmann_basis, gellmann_basis_to_matrix, dm_to_gellmann_basis, gellmann_basis_to_dm, dm_to_gellmann_norm,
+    get_density_matrix_distance2; numpy and torch, single and batched."""
+    import torch
+    from . import mani_reuse as MR
+    rng = np.random.default_rng(20260930)
+    for d in (2, 3):
+        MR.check(ctx, f'gellmann_matrix[d={d}]', lambda: G.gellmann_matrix(0, 1, d), lambda: G.gellmann_matrix(1, 0, d),
+                 lambda r: None if _close(r, G.gellmann_matrix(0, 1, d), 0) else 'not the (0,1) element', history=[dict(i=0, j=1, d=d), dict(i=1, j=0, d=d)])
+        opts = [dict(tensor_n=1, with_I=True), dict(tensor_n=1, with_I=False), dict(tensor_n=2, with_I=True), dict(tensor_n=2, with_I=False)]
+        for a, b in ((0, 1), (1, 0), (2, 3), (3, 2), (0, 2)):
+            def valid(r, a=a):
+                n = opts[a]['tensor_n']; full = d ** (2 * n)
+                if r.shape != (full if opts[a]['with_I'] else full - 1, d ** n, d ** n):
+                    return f'shape {r.shape}'
+                gram = np.einsum('aij,bji->ab', r, r)
+                return None if np.abs(gram - (2 ** n) * np.eye(r.shape[0])).max() < 1e-12 else 'no longer orthogonal'
+            MR.check(ctx, f'all_gellmann_matrix[d={d},{opts[a]}->{opts[b]}]', lambda a=a: G.all_gellmann_matrix(d, **opts[a]), lambda b=b: G.all_gellmann_matrix(d, **opts[b]),
+                     valid, history=[dict(d=d, **opts[a]), dict(d=d, **opts[b])], same_input_cached=True)
+        for backend in ('np', 'torch'):
+            conv = (lambda x: torch.tensor(x)) if backend == 'torch' else (lambda x: np.array(x))
+            for shp in ((), (2,)):
+                def herm():
+                    a = rng.normal(size=shp + (d, d)) + 1j * rng.normal(size=shp + (d, d))
+                    return (a + a.conj().swapaxes(-1, -2)) / 2
+                def dm():
+                    a = rng.normal(size=shp + (d, d)) + 1j * rng.normal(size=shp + (d, d))
+                    r = a @ a.conj().swapaxes(-1, -2)
+                    return r / np.trace(r, axis1=-2, axis2=-1)[..., None, None]
+                A, B = herm(), herm()
+                tag = f'd={d},{backend},batch{list(shp)}'
+                h = lambda X, Y: [dict(backend=backend, value=[str(z) for z in np.asarray(X).reshape(-1)]), dict(backend=backend, value=[str(z) for z in np.asarray(Y).reshape(-1)])]
+                MR.check(ctx, f'matrix_to_gellmann_basis[{tag}]', lambda: G.matrix_to_gellmann_basis(conv(A)), lambda: G.matrix_to_gellmann_basis(conv(B)),
+                         lambda r: None if _close(to_np(G.gellmann_basis_to_matrix(r)), A, 1e-12) else 'synthesis of the held coefficients is no longer A', history=h(A, B))
+                vA, vB = rng.normal(size=shp + (d * d,)), rng.normal(size=shp + (d * d,))
+                MR.check(ctx, f'gellmann_basis_to_matrix[{tag}]', lambda: G.gellmann_basis_to_matrix(conv(vA)), lambda: G.gellmann_basis_to_matrix(conv(vB)),
+                         lambda r: None if _close(to_np(G.matrix_to_gellmann_basis(r)), vA, 1e-12) else 'analysis of the held matrix is no longer the vector A', history=h(vA, vB))
+                RA, RB = dm(), dm()
+                for w0 in (False, True):
+                    MR.check(ctx, f'dm_to_gellmann_basis[{tag},with_rho0={w0}]', lambda: G.dm_to_gellmann_basis(conv(RA), with_rho0=w0), lambda: G.dm_to_gellmann_basis(conv(RB), with_rho0=w0),
+                             history=h(RA, RB))
+                uA, uB = rng.normal(size=shp + (d * d - 1,)) / 10, rng.normal(size=shp + (d * d - 1,)) / 10
+                MR.check(ctx, f'gellmann_basis_to_dm[{tag}]', lambda: G.gellmann_basis_to_dm(conv(uA)), lambda: G.gellmann_basis_to_dm(conv(uB)),
+                         lambda r: None if _close(to_np(G.dm_to_gellmann_basis(r)), uA, 1e-12) else 'Bloch vector of the held matrix is no longer A', history=h(uA, uB))
+                if backend == 'np':
+                    MR.check(ctx, f'dm_to_gellmann_norm[{tag}]', lambda: G.dm_to_gellmann_norm(RA.copy()), lambda: G.dm_to_gellmann_norm(RB.copy()), history=h(RA, RB))
+                if shp == ():
+                    MR.check(ctx, f'get_density_matrix_distance2[{tag}]', lambda: G.get_density_matrix_distance2(conv(RA), conv(RB)),
+                             lambda: G.get_density_matrix_distance2(conv(RB), conv(RA @ RA / np.trace(RA @ RA))), history=h(RA, RB))
+
+
 def probe(ctx):
     import numqi, torch
     G = fresh_gellmann()
+    probe_buffer_reuse(ctx, G)
     rng = np.random.default_rng(ctx.np_seed + 1)
     dims = list(range(2, 9))
     basis = {}
